@@ -7,6 +7,7 @@
 //@subst std::fs::File::create => file_create
 //@subst File::open => async_file_open
 //@subst bincode::deserialize_from => deserialize_from
+//@subst bincode::DefaultOptions::new => BincodeOptions::new
 //@subst bincode::serialize_into => serialize_into
 //@subst fs::ResourcesState => FsResourcesState
 //@subst cmd_stdout::ResourcesState => CmdResourcesState
@@ -202,9 +203,47 @@ impl StdFile {
     /// the bytes behind an opened file, as decoded by bincode
     pub uninterp spec fn stored(&self) -> Stored;
     pub uninterp spec fn path(&self) -> PathBuf;
+    /// length in bytes of the file
+    pub uninterp spec fn len(&self) -> u64;
+    /// `File::metadata`: a failure counts as "the state file cannot be read" (A-fs)
+    #[verifier::external_body]
+    pub fn metadata(&self, Tracked(w): Tracked<&mut World>) -> (r: std::result::Result<StdFileMeta, IoError>)
+        ensures *final(w) == *old(w), r matches Ok(m) ==> m.spec_len() == self.len(),
+            r is Err ==> read_fails(self.path()),
+    { unimplemented!() }
+}
+#[verifier::external_body]
+pub struct StdFileMeta { _p: () }
+impl StdFileMeta {
+    pub uninterp spec fn spec_len(&self) -> u64;
+    #[verifier::external_body]
+    pub fn len(&self) -> (r: u64) ensures r == self.spec_len(), { unimplemented!() }
 }
 #[verifier::external_body]
 pub struct BincodeError { _p: () }
+/// `bincode::DefaultOptions` with the `Options` builder methods used by storage.rs (A-codec): decoding under a byte
+/// limit fails on a decodable record only when the limit is smaller than the file
+#[verifier::external_body]
+pub struct BincodeOptions { _p: () }
+impl BincodeOptions {
+    pub uninterp spec fn lim(&self) -> Option<u64>;
+    #[verifier::external_body]
+    pub fn new() -> (r: Self) ensures r.lim() is None, { unimplemented!() }
+    #[verifier::external_body]
+    pub fn with_fixint_encoding(self) -> (r: Self) ensures r.lim() == self.lim(), { unimplemented!() }
+    #[verifier::external_body]
+    pub fn allow_trailing_bytes(self) -> (r: Self) ensures r.lim() == self.lim(), { unimplemented!() }
+    #[verifier::external_body]
+    pub fn with_limit(self, n: u64) -> (r: Self) ensures r.lim() == Some(n), { unimplemented!() }
+    #[verifier::external_body]
+    pub fn deserialize_from(self, f: StdFile) -> (r: std::result::Result<TargetEnvState, BincodeError>)
+        requires
+            /*[C05.corrupt-bounded]*/ decoding_is_total(self.lim(), f),
+        ensures
+            r matches Ok(s) ==> f.stored() == Stored::State(s.view()),
+            r is Err ==> f.stored() is Garbage || (self.lim() matches Some(n) && n < f.len()),
+    { unimplemented!() }
+}
 
 /// `get_checksums_file_path` (storage.rs): `<project_dir>/.zinoma/<target>.checksums` — string formatting, assumed
 //@fn src/engine/incremental/storage.rs get_checksums_file_path assumed ret=r
@@ -253,9 +292,18 @@ pub fn file_create(p: &PathBuf, Tracked(w): Tracked<&mut World>) -> (r: std::res
         r matches Ok(f) ==> f.path() == *p && *final(w) == (World { store: old(w).store.insert(*p, Stored::Garbage), ..*old(w) }),
         r is Err ==> *final(w) == *old(w),
 { unimplemented!() }
-/// `bincode::deserialize_from(file)` (A-codec)
+/// bincode decodes a length prefix and allocates what it announces before reading: on arbitrary bytes this is a
+/// panic ("capacity overflow", reproduced with 64 bytes of 0xff; the blocking task dies and zinoma hangs) unless the
+/// decoder runs under a byte limit no larger than the file. C05: a corrupted file leads to a rebuild, "never to an
+/// error, a panic or a skip" - so decoding a state file requires such a bound.
+pub open spec fn decoding_is_total(lim: Option<u64>, f: StdFile) -> bool {
+    lim matches Some(n) && n <= f.len()
+}
+/// `bincode::deserialize_from(file)` (A-codec): the unbounded decoder
 #[verifier::external_body]
 pub fn deserialize_from(f: StdFile) -> (r: std::result::Result<TargetEnvState, BincodeError>)
+    requires
+        /*[C05.corrupt-bounded]*/ decoding_is_total(None, f),
     ensures
         r matches Ok(s) ==> f.stored() == Stored::State(s.view()),
         r is Err ==> f.stored() is Garbage,
